@@ -13,6 +13,7 @@ open PebblesVerif.Merge
 #print axioms C05_perm_two
 #print axioms C05_perm_result_partial
 #print axioms C05_perm_partial
+#print axioms C05_perm_routes
 #print axioms C05_perm_false
 #print axioms C05_perm_false_node
 #print axioms C05_perm_false_original
